@@ -3,6 +3,7 @@ import os
 import re
 import shutil
 import tempfile
+import uuid
 
 ID = "C17"
 LEVEL = "exploration"
@@ -162,9 +163,26 @@ def run_case(spec, ctx):
                         got = u.generate_machine_id(new=(name == "regen"), destination_file=idf)
                     except SystemExit:
                         ctx.count("invalid_identifier_exits")
+                        if last_id is not None:
+                            # an identifier was handed out before and nobody but the client touched the file since
+                            ctx.violation("identifier-unreadable-after-it-was-handed-out", dict(w, previous=last_id, file=repr(open(idf, "rb").read()[:120]) if os.path.isfile(idf) else None))
                 ctx.count("identifier_reads")
                 if got is None:
                     continue
+                if os.path.isfile(idf):
+                    with open(idf, "rb") as f:
+                        stored = f.read()
+                    if stored.strip():
+                        # the identifier is persisted: the very next read (one more client run) must return it again
+                        ctx.count("immediate_rereads_of_a_persisted_identifier")
+                        try:
+                            again = u.generate_machine_id(new=False, destination_file=idf)
+                        except SystemExit:
+                            again = None
+                        if again is None:
+                            ctx.violation("identifier-unreadable-after-it-was-handed-out", dict(w, previous=got, file=repr(stored[:120]), file_before=repr(pre[2][:120]) if pre else None))
+                        elif again != got:
+                            ctx.violation("identifier-changed-without-regeneration", dict(w, previous=got, got=again, file=repr(stored[:120]), immediate_reread=True))
                 if not isinstance(got, str) or not CANON.match(got):
                     ctx.violation("identifier-not-canonical", dict(w, got=repr(got), file=repr(pre[2] if pre else None)))
                 if name == "read":
